@@ -43,7 +43,23 @@ def bchExhaustive (L : Nat) : String := Id.run do
         pset := pset.insert p
   return s!"ok 1 singles={n} pairs={pset.size} cross-variant-weight4={cross4}"
 
+def nats (xs : List Nat) : String := " ".intercalate (toString xs.length :: xs.map toString)
+def charsOf : R (List Char) := do let cs ← listOf nat; pure (cs.map Char.ofNat)
+def encOf (n : Nat) : Enc := if n == 2 then .bech32m else .bech32
+
 def bchOps : List (String × (Model.Tables → R String)) := [
-  ("s:bch_exhaustive", fun _ => do let L ← nat; pure (bchExhaustive L))
+  ("s:bch_exhaustive", fun _ => do let L ← nat; pure (bchExhaustive L)),
+  -- the leaves of bech32.py in the hand model (natural-number arguments only)
+  ("m:polymod", fun _ => do let v ← listOf nat; pure s!"ok {polymod specConsts v}"),
+  ("m:hrp_expand", fun _ => do let h ← charsOf; pure ("ok " ++ nats (hrpExpand h))),
+  ("m:verify_checksum", fun _ => do
+      let h ← charsOf; let d ← listOf nat
+      pure ("ok " ++ match verifyChecksum specConsts h d with | none => "none" | some .bech32 => "1" | some .bech32m => "2")),
+  ("m:create_checksum", fun _ => do
+      let h ← charsOf; let d ← listOf nat; let sp ← nat
+      pure ("ok " ++ nats (createChecksum specConsts h d (encOf sp)))),
+  ("m:convertbits", fun _ => do
+      let d ← listOf nat; let f ← nat; let t ← nat; let p ← bool
+      pure ("ok " ++ match convertbits d f t p with | none => "none" | some r => nats r))
 ]
 end Driver
